@@ -129,7 +129,7 @@ class StructMachine(Machine):
             K = self.K_paths.get(path.rsplit(".", 1)[-1], self.K)
             self.constraints += [n >= 0, n <= K]
             self.leaves.append((path, "len", n))
-            return VecV(tuple((n > k, self.make(ty[4:-1], "%s[%d]" % (path, k))) for k in range(K)))
+            return VecV(tuple((n > k, self.make(ty[4:-1], "%s[%d]" % (path, k))) for k in range(K)), dense=True)
         if ty.startswith("Box<") and ty.endswith(">"):
             return self.make(ty[4:-1], path)
         if ty in ("String", "&str", "&'staticstr"):
@@ -803,7 +803,7 @@ class StructMachine(Machine):
             if meth == "count":
                 return sum((If(g, 1, 0) if is_sym(g) else (1 if g else 0)) for g, _ in recv.items) if recv.items else 0
             if meth == "enumerate":
-                if all(g is True for g, _ in recv.items) or len(recv.items) <= 1:
+                if recv.dense or all(g is True for g, _ in recv.items) or len(recv.items) <= 1:
                     return VecV(tuple((g, TupleV((k, v))) for k, (g, v) in enumerate(recv.items)))
                 rank, out = 0, []
                 for g, v in recv.items:
